@@ -36,6 +36,8 @@ def instances(tier, seed):
         out.append(dict(name=name, **kw))
     add("step:delete", seq=['del'], N=4, terms={'bond': 1, 'angle': 1}, K=1, cost=30)
     add("step:delete:K2", seq=['del'], N=4, terms={'bond': 2}, K=2, cost=30)
+    add("step:delete:improper:K2", seq=['del'], N=4, terms={'improper': 1}, K=2, cost=30)
+    add("seq:construct-from-donor-arrays-then-extend-map", seq=['construct-alias'], N=3, terms={'bond': 1}, oterms='bond', cost=10)
     add("step:pop", seq=['pop'], N=3, terms={'bond': 1}, cost=3)
     add("step:extend", seq=['ext'], N=3, terms={'bond': 1}, oterms='bond', cost=10)
     add("step:extend-map", seq=['extmap'], N=3, terms={'dihedral': 1}, oterms='dihedral', cost=30)
@@ -117,6 +119,7 @@ def lmpdat_counts(ctx, a, label):
         ok = ok and sect.get(sec, 0) == decl.get(k + 's', -1)
         if co in sect:
             ok = ok and sect[co] == decl.get(k, 0)
+        ok = ok and sect.get(co, 0) == len(getattr(a, COEFF_ATTR[k]))      # every coefficient row of the table is written
         tys = [int(t) for t in getattr(a, k + '_types')]
         if tys:
             ok = ok and max(tys) + 1 <= decl.get(k, 0)
@@ -246,6 +249,26 @@ def body(ctx, p):
             with core.nosimplify():
                 c12_replicate.check(ctx, dict(dims=dims), a, sp, sp, cell, r, dims)
             a = r
+        elif op == 'construct-alias':
+            # a second object built from the first one's arrays must not share state with it
+            donor_before = spec_from_state(a)
+            b = Atoms(atom_types=a.atom_types, positions=a.positions, charges=a.charges, groups=a.groups, atom_type_elements=a.atom_type_elements,
+                      atom_type_masses=a.atom_type_masses, atom_type_labels=a.atom_type_labels, pair_coeffs=a.pair_coeffs,
+                      bonds=a.bonds, bond_types=a.bond_types, bond_type_coeffs=a.bond_type_coeffs)
+            o, so = make_other(ctx, p, str(step))
+            m = c11_extend.build_map(ctx, so.N, n, tag=str(step))
+            spb = spec_from_state(b)
+            b.extend(o, structure_index_map=dict(m))
+            c11_extend.check_extend(ctx, spb, so, m, b, label=lab)
+            with core.nosimplify():
+                da = spec_from_state(a)
+                ctx.require(lab + 'the object whose arrays were used to construct another one is untouched by operations on the new one',
+                            AND(da.N == donor_before.N, da.tables == donor_before.tables,
+                                *[EQ(x, y) for x, y in zip(da.types + da.charges + da.groups, donor_before.types + donor_before.charges + donor_before.groups)],
+                                *[EQ(da.pos[i][c], donor_before.pos[i][c]) for i in range(da.N) for c in range(3)],
+                                *[EQ(x, y) for k, _ in KINDS for (e1, t1), (e2, t2) in zip(da.terms[k], donor_before.terms[k]) for x, y in list(zip(e1, e2)) + [(t1, t2)]]))
+                invariant(ctx, a, lab + 'donor: ')
+            a = b
         elif op == 'construct':
             # the public constructor on the same contents gives a consistent object with the same meaning
             kw = dict(atom_types=list(a.atom_types), positions=[list(r) for r in a.positions], charges=list(a.charges), groups=list(a.groups),
